@@ -10,7 +10,7 @@ from engines import bench
 
 ID = 'C16'
 SHARDS = {'quick': 8, 'thorough': 16}
-RULE = ("alphabet of 33 calls over a small world (containers c1, c2, an equal-named twin of c1, undeclared c3, plate "
+RULE = ("alphabet of 35 calls over a small world (containers c1, c2, an equal-named twin of c1, undeclared c3, plate "
         "p1): uses(x | list | twin), create_container(new | duplicate), create_solution(new | duplicate | declared "
         "container solvent | undeclared container solvent), create_solution_from(declared | undeclared source), "
         "transfer(declared | undeclared source | undeclared destination | into plate), remove / dilute (also with new_name) / fill_to "
@@ -28,10 +28,10 @@ ASSUMPTIONS = ["objects are identified by name (a twin with a declared name is t
                "uses([new, duplicate]) (partial application) is not judged"]
 REQUIRED_CLASSES = {'quick': ['baked', 'bake-refused', 'after-bake-call'], 'thorough': ['baked', 'bake-refused', 'after-bake-call', 'long']}
 
-CALLS = ['uses:c1', 'uses:c2', 'uses:p1', 'uses:[c2,p1]', 'uses:twin',
+CALLS = ['uses:c1', 'uses:c2', 'uses:p1', 'uses:[c2,p1]', 'uses:gen(c2,p1)', 'uses:twin',
          'create_container:n1', 'create_container:c1',
          'solution:s1', 'solution:c1', 'solution:s2/c2', 'solution:s3/c3',
-         'solution_from:f1/c1', 'solution_from:f2/c3',
+         'solution_from:f1/c1', 'solution_from:f2/c3', 'solution_from_bad:f1/c1',
          'transfer:c1>c2', 'transfer:c3>c2', 'transfer:c1>c3', 'transfer:c1>p1', 'transfer:twin>c2',
          'remove:c1', 'remove:c3', 'dilute:c1', 'dilute:c3', 'dilute_as:c1', 'fill_to:c2', 'fill_to:c3', 'fill_to:p1',
          'start:a', 'start:b', 'start:all', 'end:a', 'end:b', 'end:all', 'bake']
@@ -58,6 +58,8 @@ class World16:
         if kind == 'uses':
             if arg == '[c2,p1]':
                 return r.uses([h['c2'], h['p1']])
+            if arg == 'gen(c2,p1)':
+                return r.uses(x for x in (h['c2'], h['p1']))       # any iterable, also one that can be walked only once
             return r.uses(h[arg])
         if kind == 'create_container':
             # same chemistry as c1 (about 1 M NaCl), so that a created 'c1' can stand in for the declared one
@@ -70,6 +72,10 @@ class World16:
         if kind == 'solution_from':
             nm, _, src = arg.partition('/')
             return r.create_solution_from(h[src], s, '0.05 M', w, '0.5 mL', nm)
+        if kind == 'solution_from_bad':
+            # right types, refused value: the call must raise and leave nothing behind (no declared name, no step)
+            nm, _, src = arg.partition('/')
+            return r.create_solution_from(h[src], s, '0.05 M', w, '0 mL', nm)
         if kind == 'transfer':
             a, b = arg.split('>')
             return r.transfer(h[a], h[b], '5 uL' if b == 'p1' else '0.1 mL')
@@ -157,7 +163,7 @@ class Model:
                 return {'RuntimeError', 'any-exception', 'ok-noop'}, None
             return {'RuntimeError'}, None
         if kind == 'uses':
-            names = {'c1': ['c1'], 'c2': ['c2'], 'p1': ['p1'], 'twin': ['c1'], '[c2,p1]': ['c2', 'p1']}[arg]
+            names = {'c1': ['c1'], 'c2': ['c2'], 'p1': ['p1'], 'twin': ['c1'], '[c2,p1]': ['c2', 'p1'], 'gen(c2,p1)': ['c2', 'p1']}[arg]
             dups = [n for n in names if n in self.declared]
             if dups:
                 if len(names) == 2 and names[0] not in self.declared:
@@ -176,6 +182,8 @@ class Model:
                 # undeclared operand: refuse now, or the bake must fail
                 return {'ValueError', 'ok'}, lambda: (self.declared.add(nm), self.created.add(nm), self.used.update([nm, solv]), self._step(), self._poison(solv))
             return {'ok'}, lambda: (self.declared.add(nm), self.created.add(nm), self.used.add(nm), self.used.add(solv) if solv else None, self._step())
+        if kind == 'solution_from_bad':
+            return {'ValueError'}, None
         if kind == 'solution_from':
             nm, _, src = arg.partition('/')
             if nm in self.declared:
